@@ -35,8 +35,15 @@ def _corpus(pid: str):
                 out.append({"id": "seeded:" + sid, "prop": pid, "kind": "mutant", "patch": str(d), "expect": rules, "what": "independent seeded change " + sid})
     # behaviour-preserving refactorings written by independent sub-agents (digest-equal on an end-to-end run): every
     # property's check must stay silent on each of them
+    # UNDECIDED.json lists, per refactoring and property, the rules that answer `undecided` (exit 2) because the restructured
+    # code is outside the forms they follow; a listed refactoring may stay undecided there but must never be a VIOLATION
+    undecided = {}
+    if (seeded / "twins" / "UNDECIDED.json").exists():
+        import json
+
+        undecided = json.loads((seeded / "twins" / "UNDECIDED.json").read_text())
     for d in sorted((seeded / "twins").glob("*/patch.diff")):
-        out.append({"id": "twin:" + d.parent.name, "prop": pid, "kind": "twin", "patch": str(d), "what": "independent benign refactoring " + d.parent.name})
+        out.append({"id": "twin:" + d.parent.name, "prop": pid, "kind": "twin", "patch": str(d), "what": "independent benign refactoring " + d.parent.name, "undecided_ok": sorted(undecided.get(d.parent.name, {}).get(pid, []))})
     only = os.environ.get("HMSLINT_SELFTEST_ONLY")  # development aid: run the variants whose id contains this text
     if only:
         out = [v for v in out if only in v["id"]]
@@ -116,7 +123,7 @@ def run_for(pid: str, repo: str, seed: int = 0, jobs: int | None = None) -> dict
         results = list(ex.map(_run_variant, [(pid, repo, v, base_keys) for v in order]))
     by_id = {r["id"]: r for r in results}
     errors = []
-    detected = missed = silent = flagged = skipped = 0
+    detected = missed = silent = flagged = skipped = undecided_n = 0
     rows = []
     for v in variants:
         r = by_id[v["id"]]
@@ -140,7 +147,12 @@ def run_for(pid: str, repo: str, seed: int = 0, jobs: int | None = None) -> dict
                 rows.append({"id": v["id"], "kind": kind, "result": "MISSED", "hit": sorted(rules_hit), "inconclusive": r["inconclusive"]})
                 errors.append(f"selftest: seeded mutant {v['id']} ({v.get('what', '')}) is not reported by {sorted(expect) or 'any rule'} (hit: {sorted(rules_hit)})")
         else:
-            if r["violations"] or r["inconclusive"] or r["errors"] and not base_errors:
+            allowed = set(v.get("undecided_ok") or [])
+            und_rules = {x[0] for x in r["inconclusive"]} | {e.split(":")[0].strip() for e in (r["errors"] if not base_errors else [])}
+            if not r["violations"] and und_rules and und_rules <= allowed:
+                undecided_n += 1
+                rows.append({"id": v["id"], "kind": kind, "result": "undecided (listed)", "rules": sorted(und_rules)})
+            elif r["violations"] or r["inconclusive"] or r["errors"] and not base_errors:
                 flagged += 1
                 rows.append({"id": v["id"], "kind": kind, "result": "FLAGGED", "violations": r["violations"], "inconclusive": r["inconclusive"]})
                 errors.append(f"selftest: benign twin {v['id']} ({v.get('what', '')}) is flagged: {r['violations'] or r['inconclusive'] or r['errors']}")
@@ -153,6 +165,7 @@ def run_for(pid: str, repo: str, seed: int = 0, jobs: int | None = None) -> dict
         "mutants_missed": missed,
         "twins_silent": silent,
         "twins_flagged": flagged,
+        "twins_undecided_listed": undecided_n,
         "skipped_target_absent": skipped,
         "rows": rows,
     }
@@ -174,7 +187,7 @@ def main():
     for pid in props:
         r = run_for(pid, args.repo)
         s = r["summary"]
-        print(f"{pid}: {s.get('variants', 0)} variants, detected {s.get('mutants_detected')}, missed {s.get('mutants_missed')}, twins silent {s.get('twins_silent')}, flagged {s.get('twins_flagged')}, skipped {s.get('skipped_target_absent')}  ({r['wall_s']:.1f}s)")
+        print(f"{pid}: {s.get('variants', 0)} variants, detected {s.get('mutants_detected')}, missed {s.get('mutants_missed')}, twins silent {s.get('twins_silent')}, undecided (listed) {s.get('twins_undecided_listed')}, flagged {s.get('twins_flagged')}, skipped {s.get('skipped_target_absent')}  ({r['wall_s']:.1f}s)")
         for row in s.get("rows", []):
             if row["result"] in ("MISSED", "FLAGGED", "skipped"):
                 print("   ", json.dumps(row))
